@@ -58,10 +58,15 @@ TEXT = {
  "C10": {
   "level": "Theorems C10_frame (every encoder output = first byte, minimal vbint of the body length, body), C10_one_write (exactly one Write with the whole frame; "
            "(n, err) as the writer reports), C10_undefined, C10_total (no panic under the representation invariant), C10_string_size (the 'N bytes' token of "
-           "String() is the frame length). The positional two-pass fill (dry run with a nil slice, capacity guards) is not modelled: the model's encoders return "
-           "bytes; the Go two-pass mechanism is tied by correspondence on WriteTo output and wire-type fill hooks.",
+           "String() is the frame length). The Go mechanism itself is modelled (Model/Fill.v): every wire type's fill/fillProp as a guarded write at a position into a buffer "
+           "of fixed length that returns the width whether or not it wrote, the encoder IR run as `i += f(b, i)`, the dry run on the nil slice, make, the second pass. "
+           "C10_fill_positional: for every packet type, packet, buffer and position the positional run returns i + the frame length (nil and short buffers included), keeps the "
+           "buffer's length and, when the frame fits, leaves exactly the frame at i and every other byte untouched; it panics only where the byte-list reading is undefined. "
+           "C10_fill_program: the same for every IR program that never calls rawdata.fillProp. C10_dry_run, C10_two_pass: WriteTo as the code runs it = WriteTo of the byte-list model, "
+           "so the theorems of C01/C02/C10 speak about the two-pass code. Tied to the source by the regenerated encoder IR, and the positional wire fills by correspondence on "
+           "nil/short/exact/longer patterned buffers at several offsets (hooks VerifWireFillInto, VerifPacketFill).",
   "note": NOTE,
-  "technique": "Coq proof over the encoder IR + correspondence with scripted writers + every-k short-write oracle",
+  "technique": "Coq proof over the encoder IR (byte-list reading and positional two-pass reading proved equal) + correspondence with scripted writers and positional fills + every-k short-write oracle",
  },
  "C11": {
   "level": "Theorems C11_readonly (in the model the read-only API consists of functions of the packet that return no packet) and C11_single_entry_maps (maps of "
